@@ -34,9 +34,13 @@ void __vf_check(bool c, const char *m) { if (!c) { fprintf(stderr, "CHECK-FAILED
 void __vf_bound(bool c, const char *m) { if (!c) { fprintf(stderr, "REPLAY-DIVERGED: bound %s\n", m); _exit(3); } }
 void __vf_reach(const char *) {}
 long __vf_live_allocs(void) { return 0; }   // natively LeakSanitizer plays this role
+#ifndef VF_NO_MAIN
 void harness(void);
+#endif
 }
+#ifndef VF_NO_MAIN
 int main() { harness(); return 0; }
+#endif
 // expected-delivery queue (same logic as rt_model.c)
 static int eq_id[64], eq_a[64], eq_b[64], eq_h, eq_t;
 extern "C" {
@@ -49,4 +53,19 @@ void __vf_log(int id, int a, int b) {
 }
 void __vf_expect_done(void) { __vf_check(eq_h == eq_t, "every expected delivery happened (no live, unmuted observer was skipped)"); eq_h = eq_t = 0; }
 void __vf_expect_throw(int, int) {}
+}
+// regex truth table natively: the replayed table is turned into real std::regex patterns by the harness (vf_native_regex_pattern)
+static bool n_tt[10][4];
+extern "C" {
+void __vf_regex_init(void) { for (int r = 1; r <= 4; r++) for (int k = 0; k < 4; k++) n_tt[r][k] = __vf_nondet_bool(); }
+bool __vf_regex_truth(int id, int k) { return id == 0 ? true : n_tt[id][k]; }
+void __vf_regex_set(int id, int k, int v) { n_tt[id][k] = v & 1; }
+const char *vf_native_regex_pattern(int id) {   // alternation of the universe names the table says this regex matches
+  static char buf[10][32]; char *b = buf[id]; b[0] = 0; const char *names[4] = {"", "a", "b", "c"}; bool first = true;
+  strcat(b, "(?:");
+  for (int k = 0; k < 4; k++) if (n_tt[id][k]) { if (!first) strcat(b, "|"); strcat(b, names[k]); first = false; }
+  if (first) strcat(b, "[^\\s\\S]");   // matches nothing
+  strcat(b, ")");
+  return b;
+}
 }
